@@ -66,7 +66,8 @@ PROPS = {
     # C11: only the name rule (schema_name: full name from name / namespace / enclosing namespace) is under contract;
     # parse_schema itself is bounded -- the level stays exploration
     "C11": dict(functions=[("fastavro/_schema_py.py", r"schema_name", "default")], lemmas=[], bounded="C11", level="exploration"),
-    "C12": dict(functions=[], lemmas=[], bounded="C12", level="exploration"),
+    # C12: only the already-parsed path of parse_schema is under contract; the equivalence of the forms is bounded
+    "C12": dict(functions=[("fastavro/_schema_py.py", r"parse_schema", "parsed")], lemmas=[], bounded="C12", level="exploration"),
     # C13: the recursive canonical-form writer against PCF (spec/canon.py) on parsed schemas; parse_schema (full
     # names, namespaces dropped), fixed point, same encoding and the cosmetic-edit invariance are bounded
     "C13": dict(functions=[("fastavro/_schema_py.py", r"_to_parsing_canonical_form", "default")], lemmas=[], bounded="C13", level="other"),
